@@ -92,6 +92,8 @@ def corrupt(module: str, e: dict) -> dict:
     elif m == "J_Meta":
         if e["kind"] == "agg":
             e["obs"] = {"T": "F", "F": "N", "N": "T"}[e["obs"]]
+        elif e["kind"] == "path":
+            e["eq"] = not e["eq"]
         else:
             e["st"] = "ok" if e["st"] != "ok" else "E"
     else:
